@@ -386,7 +386,7 @@ func contractsFor(c *Ctx, prop string) *bounds.Hooks {
 		return opusCountHooks(c)
 	case "C13":
 		c.lenPairsSeen = map[ssa.Instruction]bool{}
-		return mergeHooks(lenPrefixHooks(c, c.lenPairsSeen), wClosedHooks(c, &c.wClosedSeen), carryNilHooks(c, "codecs.(*AV1Payloader).Payload", &c.carryNilSeen))
+		return mergeHooks(lenPrefixHooks(c, c.lenPairsSeen), wClosedHooks(c, &c.wClosedSeen), carryNilHooks(c, "codecs.(*AV1Payloader).Payload", &c.carryNilSeen), yzFlagHooks(c, &c.yzSeen))
 	}
 	return nil
 }
